@@ -64,6 +64,37 @@ theorem rotateRight_clean (hf : ZeroingPresent) {h h' : Heap K V} (hc : AllClean
   | none => simp at h8; subst h8; simpa using c1
   | some c => simpa using setParents_clean hf _ _ c1 h8
 
+/-! ## the calls of `steal` / `merge`, evaluated on the shipped source
+
+`Heap.steal` / `Heap.mergeFrom` execute the call that the generated facts `Gen.Tree.stealRightCall`,
+`stealLeftCall`, `mergeLeftCall`, `mergeRightCall` prescribe; on the shipped source these are
+`rotateLeft(x, right)`, `rotateRight(left, x)`, `mergeTwo(left, x)`, `mergeTwo(x, right)`. The
+simulation proofs of C03Link go through the three lemmas below. -/
+
+theorem rotCall_stealRight (h : Heap K V) (xid r : Nat) (left : Option Nat) :
+    Heap.rotCall h Tree.stealRightCall xid left (some r) = Heap.rotateLeft h xid r := by
+  simp [Heap.rotCall, Heap.callArgs, Heap.argNode, Tree.stealRightCall]
+
+theorem rotCall_stealLeft (h : Heap K V) (xid l : Nat) (right : Option Nat) :
+    Heap.rotCall h Tree.stealLeftCall xid (some l) right = Heap.rotateRight h l xid := by
+  simp [Heap.rotCall, Heap.callArgs, Heap.argNode, Tree.stealLeftCall]
+
+theorem callArgs_merge (xid : Nat) (left right : Option Nat) (c : Bool) :
+    Heap.callArgs (if c then Tree.mergeLeftCall else Tree.mergeRightCall) [.mergeTwo] xid left right =
+      (if c then left.map (·, xid) else right.map (xid, ·)).map fun lr => (Tree.Callee.mergeTwo, lr.1, lr.2) := by
+  cases c <;> cases left <;> cases right <;>
+    simp [Heap.callArgs, Heap.argNode, Tree.mergeLeftCall, Tree.mergeRightCall]
+
+/-- whichever rotation on whichever nodes the generated call facts prescribe -/
+theorem rotCall_clean (hf : ZeroingPresent) {h h' : Heap K V} (hc : AllClean h.nodes)
+    {call : Option (Tree.Callee × Tree.NodeArg × Tree.NodeArg)} {xid : Nat} {left right : Option Nat}
+    (hs : Heap.rotCall h call xid left right = some h') : AllClean h'.nodes := by
+  unfold Heap.rotCall at hs
+  split at hs
+  · exact rotateLeft_clean hf hc hs
+  · exact rotateRight_clean hf hc hs
+  · cases hs
+
 theorem steal_clean (hf : ZeroingPresent) {h : Heap K V} (hc : AllClean h.nodes) {xid : Nat} {r : Heap K V × Bool}
     (hs : h.steal xid = some r) : AllClean r.1.nodes := by
   unfold Heap.steal at hs
@@ -71,16 +102,14 @@ theorem steal_clean (hf : ZeroingPresent) {h : Heap K V} (hc : AllClean h.nodes)
   obtain ⟨lr, h1, hs⟩ := Option.bind_eq_some_iff.mp hs
   obtain ⟨rn, h2, hs⟩ := Option.bind_eq_some_iff.mp hs
   split at hs
-  · obtain ⟨r', h3, hs⟩ := Option.bind_eq_some_iff.mp hs
-    obtain ⟨ha, h4, hs⟩ := Option.bind_eq_some_iff.mp hs
+  · obtain ⟨ha, h4, hs⟩ := Option.bind_eq_some_iff.mp hs
     simp at hs; subst hs
-    exact rotateLeft_clean hf hc h4
+    exact rotCall_clean hf hc h4
   · obtain ⟨ln, h3, hs⟩ := Option.bind_eq_some_iff.mp hs
     split at hs
-    · obtain ⟨l, h4, hs⟩ := Option.bind_eq_some_iff.mp hs
-      obtain ⟨ha, h5, hs⟩ := Option.bind_eq_some_iff.mp hs
+    · obtain ⟨ha, h5, hs⟩ := Option.bind_eq_some_iff.mp hs
       simp at hs; subst hs
-      exact rotateRight_clean hf hc h5
+      exact rotCall_clean hf hc h5
     · simp at hs; subst hs
       exact hc
 
@@ -110,10 +139,15 @@ theorem mergeFrom_clean (hf : ZeroingPresent) : ∀ (fuel : Nat) {h h' : Heap K 
     split at hs
     · split at hs
       · obtain ⟨hc1, h12, hs⟩ := Option.bind_eq_some_iff.mp hs
-        obtain ⟨hc2, h13, hs⟩ := Option.bind_eq_some_iff.mp hs
-        simp at hs; subst hs
-        have c3 := step_clean hf (by simpa using c2) h12
-        simpa using step_clean hf c3 h13
+        have c3 : AllClean hc1.nodes := by
+          split at h12
+          · exact step_clean hf (by simpa using c2) h12
+          · simp at h12; subst h12; simpa using c2
+        split at hs
+        · obtain ⟨hc2, h13, hs⟩ := Option.bind_eq_some_iff.mp hs
+          simp at hs; subst hs
+          simpa using step_clean hf c3 h13
+        · simp at hs; subst hs; exact c3
       · simp at hs; subst hs; simpa using c2
     · split at hs
       · obtain ⟨st, h12, hs⟩ := Option.bind_eq_some_iff.mp hs
@@ -222,7 +256,9 @@ theorem delete_clean (hf : ZeroingPresent) (cmp : K → K → Int) {h h' : Heap 
   simp only [bind, pure] at hs
   obtain ⟨d, h1, hs⟩ := Option.bind_eq_some_iff.mp hs
   split at hs
-  · simp at hs; subst hs; exact hc
+  · split at hs
+    · simp at hs; subst hs; exact hc
+    · cases hs
   · obtain ⟨x, h2, hs⟩ := Option.bind_eq_some_iff.mp hs
     obtain ⟨hl, h3, hs⟩ := Option.bind_eq_some_iff.mp hs
     have c1 : AllClean hl.1.nodes := by
